@@ -1,4 +1,5 @@
 import Solvor.Sched.Lemmas
+import Solvor.Sched.VrpLemmas
 /-!
 Sched: the property theorems of C18 (helper lemmas are in `Lemmas.lean` / `VrpLemmas.lean`).
 
@@ -28,6 +29,29 @@ theorem dispatch_valid (jobs : Jobs) (cs : List Nat) (h : Choices jobs cs) :
 /-- Non-vacuity: the docstring instance of `solvor/job_shop.py`, jobs picked 1,1,0,0,0,1 (SPT). -/
 example : Choices [[(0, 3), (1, 2), (2, 2)], [(0, 2), (2, 1), (1, 4)]] [1, 1, 0, 0, 0, 1] ∧
     makespan (dispatch [[(0, 3), (1, 2), (2, 2)], [(0, 2), (2, 1), (1, 4)]] [1, 1, 0, 0, 0, 1]) = 11 := by
+  decide
+
+/-- C18 `dispatch_chooser_valid`: the loop `for _ in range(total_ops): … if not ready: break …
+place(selected)` run with **any** chooser (a function of the current clocks/counters that returns a
+job with operations left whenever there is one – every dispatching rule, every seed of `random`,
+the priority sort of `_rebuild_schedule`) is the dispatch machine on a complete choice sequence;
+its schedule is valid. -/
+theorem dispatch_chooser_valid (jobs : Jobs) (ch : DState → Option Nat) (hch : Chooser jobs ch) :
+    (∃ cs, Choices jobs cs ∧ (dispatchWith jobs ch (totalOps jobs) DState.init).sched = dispatch jobs cs) ∧
+    ValidSchedule jobs (dispatchWith jobs ch (totalOps jobs) DState.init).sched := by
+  obtain ⟨cs, hc, he⟩ := chooser_choices jobs ch hch
+  exact ⟨⟨cs, hc, he⟩, he ▸ (dispatch_valid jobs cs hc).1⟩
+
+/-- C18 `dispatch_rule_valid`: the mirrors of `fifo`, `spt`, `lpt`, `mwkr` are choosers, so
+`_dispatch` under each of them returns a valid schedule for every instance. -/
+theorem dispatch_rule_valid (r : Rule) (jobs : Jobs) : ValidSchedule jobs (dispatchRule r jobs) :=
+  (dispatch_chooser_valid jobs _ (choose_chooser r jobs)).2
+
+/-- Non-vacuity: the four rules on the docstring instance (and they differ). -/
+example :
+    let jobs : Jobs := [[(0, 3), (1, 2), (2, 2)], [(0, 2), (2, 1), (1, 4)]]
+    makespan (dispatchRule .spt jobs) = 11 ∧ makespan (dispatchRule .fifo jobs) = 12 ∧
+    makespan (dispatchRule .lpt jobs) = 12 ∧ makespan (dispatchRule .mwkr jobs) = 10 := by
   decide
 
 /-- T-spec: the Boolean checker the driver evaluates on every schedule the implementation returns
@@ -92,5 +116,215 @@ theorem isDispatchOf_sound (jobs : Jobs) (S : List Entry) (h : isDispatchOf jobs
 
 example : isDispatchOf [[(0, 3), (1, 2)], [(0, 2)]] [⟨1, 0, 0, 2⟩, ⟨0, 0, 2, 5⟩, ⟨0, 1, 5, 7⟩] = true := by
   decide
+
+/-! ## Part 2: VRP bookkeeping
+
+`Inv P s` *is* the property's bookkeeping clause: every customer is in `unassigned` xor on at
+least one route (never lost, never in both), never twice on the same route, a single-vehicle
+customer on exactly one route. -/
+
+/-- C18 [C] `vrp_inv_step`: every abstract transition (`remove S`, `insert c vps`, `recompute`)
+preserves the bookkeeping invariant, whatever set / customer / positions it carries. -/
+theorem vrp_inv_step (P : Prob) (st : Step) (s s' : VState) (h : Inv P s) (hs : StepRel P st s s') :
+    Inv P s' := inv_step h hs
+
+/-- C18 [C] `vrp_inv_run`: hence every sequence of transitions preserves it. -/
+theorem vrp_inv_run (P : Prob) (plan : List Step) (s s' : VState) (h : Inv P s) (hr : Run P plan s s') :
+    Inv P s' := by
+  induction hr with
+  | nil e => exact h.of_equiv e
+  | cons hrel _ ih => exact ih (inv_step h hrel)
+
+/-- The state built by `VRPState.from_problem` (all customers unassigned, `k` empty routes)
+satisfies the invariant, so every state reachable from it by transitions does. -/
+theorem vrp_inv_init (P : Prob) (k : Nat) : Inv P ⟨List.replicate k [], List.range' 1 P.n⟩ := by
+  have hno : ∀ c, ¬ onRoute ⟨List.replicate k [], List.range' 1 P.n⟩ c := by
+    rintro c ⟨r, hr, hc⟩
+    rw [List.eq_of_mem_replicate hr] at hc
+    cases hc
+  refine ⟨?_, ?_, List.nodup_range' 1, ?_, ?_, ?_⟩
+  · intro r hr c hc; rw [List.eq_of_mem_replicate hr] at hc; cases hc
+  · intro c hc; exact mem_range1.1 hc
+  · intro c h1 h2; simp only [hno c, not_false_eq_true, iff_true]; exact mem_range1.2 ⟨h1, h2⟩
+  · intro r hr; rw [List.eq_of_mem_replicate hr]; exact List.nodup_nil
+  · intro c _ _ _ i j r r' hi _ hc _
+    have := List.mem_of_getElem? hi
+    rw [List.eq_of_mem_replicate this] at hc
+    cases hc
+
+/-- Non-vacuity: customer 1 needs two vehicles.  From the empty plan: insert 1 on routes 0 and 1,
+insert 2 and 3, then remove {1, 3}; each step is an abstract transition, so `Inv` holds at the end. -/
+example :
+    let P : Prob := ⟨3, fun c => if c = 1 then 2 else 1, fun _ _ => 0, fun _ => 0, fun _ => 0,
+      fun _ => none, fun _ => 0, fun _ => none⟩
+    Run P [.insert 1 [(0, 0), (1, 0)], .insert 2 [(0, 1)], .insert 3 [(1, 0)], .remove [1, 3]]
+      ⟨[[], []], [1, 2, 3]⟩ ⟨[[2], []], [1, 3]⟩ := by
+  intro P
+  refine Run.cons (s' := ⟨[[1], [1]], [2, 3]⟩) (by decide) ?_
+  refine Run.cons (s' := ⟨[[1, 2], [1]], [3]⟩) (by decide) ?_
+  refine Run.cons (s' := ⟨[[1, 2], [3, 1]], []⟩) (by decide) ?_
+  exact Run.cons (s' := ⟨[[2], []], [1, 3]⟩) (by decide) (Run.nil (by decide))
+
+/-- T-spec: the Boolean checker evaluated on every recorded state decides exactly `Inv`. -/
+theorem chkInv_iff (P : Prob) (s : VState) : chkInv P s = true ↔ Inv P s := by
+  have hr : chkRange P s = true ↔
+      (∀ r ∈ s.routes, ∀ c ∈ r, 1 ≤ c ∧ c ≤ P.n) ∧ ∀ c ∈ s.unassigned, 1 ≤ c ∧ c ≤ P.n := by
+    simp [chkRange]
+  have hu : chkNodupU s = true ↔ s.unassigned.Nodup := by simp [chkNodupU]
+  have hn : chkNodupR s = true ↔ ∀ r ∈ s.routes, r.Nodup := by simp [chkNodupR]
+  have hp := chkNotLostBoth_iff P s
+  have hs := chkSingle_iff P s
+  unfold chkInv
+  simp only [Bool.and_eq_true]
+  constructor
+  · rintro ⟨⟨⟨⟨⟨h1, h2⟩, h3⟩, h4⟩, h5⟩, h6⟩
+    exact ⟨(hr.1 h1).1, (hr.1 h1).2, hu.1 h2, hp.1 ⟨h3, h4⟩, hn.1 h5, hs.1 h6⟩
+  · intro h
+    have := hp.2 h.part
+    exact ⟨⟨⟨⟨⟨hr.2 ⟨h.rangeR, h.rangeU⟩, hu.2 h.nodupU⟩, this.1⟩, this.2⟩, hn.2 h.nodupR⟩, hs.2 h.single⟩
+
+example :
+    let P : Prob := ⟨3, fun c => if c = 1 then 2 else 1, fun _ _ => 0, fun _ => 0, fun _ => 0,
+      fun _ => none, fun _ => 0, fun _ => none⟩
+    chkInv P ⟨[[1, 2], [3, 1]], []⟩ = true ∧
+    chkInv P ⟨[[2], [3]], []⟩ = false ∧          -- customer 1 lost
+    chkInv P ⟨[[1, 2], [3]], [1]⟩ = false ∧      -- unassigned and on a route
+    chkInv P ⟨[[1, 1, 2], [3]], []⟩ = false ∧    -- twice on a route
+    chkInv P ⟨[[1, 2], [2, 3]], []⟩ = false := by -- single-vehicle customer on two routes
+  decide
+
+/-- Refinement checker for the destroy operators: an accepted (pre, post) pair is an abstract
+`remove` transition. -/
+theorem isRemove_sound (P : Prob) (pre post : VState) (h : isRemove P pre post = true) :
+    ∃ S, StepRel P (.remove S) pre post :=
+  ⟨_, of_decide_eq_true h⟩
+
+/-- Refinement checker for the repair operators: an accepted (pre, post) pair is connected by a
+sequence of abstract `insert` transitions. -/
+theorem isInsertRun_sound (P : Prob) (pre post : VState) (h : isInsertRun P pre post = true) :
+    ∃ plan, (∀ st ∈ plan, st.isInsert = true) ∧ Run P plan pre post := by
+  unfold isInsertRun at h
+  split at h
+  · rename_i t ht
+    have hins : ∀ st ∈ insertPlan pre post, st.isInsert = true := insertPlan_go_isInsert _ _
+    exact ⟨_, hins, run_equiv (runPlan_sound P _ _ _ ht) (of_decide_eq_true h) hins⟩
+  · cases h
+
+/-- Hence: whatever a checked operator did, it preserved the invariant. -/
+theorem refinement_preserves_inv (P : Prob) (pre post : VState) (h : Inv P pre)
+    (hs : isRemove P pre post = true ∨ isInsertRun P pre post = true) : Inv P post := by
+  rcases hs with hs | hs
+  · obtain ⟨S, hS⟩ := isRemove_sound P pre post hs
+    exact vrp_inv_step P _ _ _ h hS
+  · obtain ⟨plan, _, hrun⟩ := isInsertRun_sound P pre post hs
+    exact vrp_inv_run P plan _ _ h hrun
+
+example :
+    let P : Prob := ⟨3, fun c => if c = 1 then 2 else 1, fun _ _ => 0, fun _ => 0, fun _ => 0,
+      fun _ => none, fun _ => 0, fun _ => none⟩
+    isRemove P ⟨[[1, 2], [3, 1]], []⟩ ⟨[[2], []], [3, 1]⟩ = true ∧
+    isRemove P ⟨[[1, 2], [3, 1]], []⟩ ⟨[[1, 2], []], [3, 1]⟩ = false ∧  -- route_removal as it was
+    isInsertRun P ⟨[[2], []], [1, 3]⟩ ⟨[[1, 2], [3, 1]], []⟩ = true ∧
+    isInsertRun P ⟨[[2], []], [1, 3]⟩ ⟨[[2], [3]], []⟩ = false := by      -- customer 1 dropped
+  decide
+
+/-- C18 [C] `arrival_consistent`: "consistent with travel, waiting and service times" (`ArrSpec`:
+first arrival = max(travel from the depot, window start), every later one = max(previous arrival
++ service + travel, window start)) has exactly one solution, the model's `arrivals`. -/
+theorem arrival_consistent (P : Prob) (route : List Nat) (ts : List Rat) :
+    ArrSpec P route ts ↔ ts = arrivals P route := by
+  cases route with
+  | nil =>
+    constructor
+    · intro h; simpa [arrivals] using h.len
+    · rintro rfl; exact ⟨rfl, by simp, by simp⟩
+  | cons c r =>
+    rw [arrivals, ← arrFrom_unique]
+    constructor
+    · intro h
+      exact ⟨by simpa using h.len, h.first c rfl, fun i x y a h1 h2 h3 => h.next i x y a h1 h2 h3⟩
+    · rintro ⟨h1, h2, h3⟩
+      refine ⟨by simpa using h1, ?_, h3⟩
+      intro c' hc'
+      simp only [List.getElem?_cons_zero, Option.some.injEq] at hc'
+      subst hc'; exact h2
+
+example :
+    let P : Prob := ⟨2, fun _ => 1, fun i j => if i = j then 0 else 5, fun _ => 0,
+      fun c => if c = 2 then 20 else 0, fun _ => none, fun _ => 2, fun _ => none⟩
+    arrivals P [1, 2] = [5, 20] ∧ ArrSpec P [1, 2] [5, 20] := by
+  intro P
+  have h : arrivals P [1, 2] = [5, 20] := by decide +kernel
+  exact ⟨h, (arrival_consistent P _ _).2 h.symm⟩
+
+/-- T-spec: the checker for the cached arrival times decides "same length and every entry within
+`tol` of the exact value". -/
+theorem chkArrivals_iff (tol : Rat) (P : Prob) (route : List Nat) (ts : List Rat) :
+    chkArrivals tol P route ts = true ↔
+      ts.length = route.length ∧
+      ∀ (i : Nat) (a b : Rat), ts[i]? = some a → (arrivals P route)[i]? = some b → a - b ≤ tol ∧ b - a ≤ tol := by
+  unfold chkArrivals closeTo
+  simp only [Bool.and_eq_true, beq_iff_eq, List.all_eq_true, decide_eq_true_eq]
+  constructor
+  · rintro ⟨hl, h⟩
+    refine ⟨hl, fun i a b ha hb => ?_⟩
+    exact h (a, b) (List.mem_iff_getElem?.2 ⟨i, List.getElem?_zip_eq_some.2 ⟨ha, hb⟩⟩)
+  · rintro ⟨hl, h⟩
+    refine ⟨hl, fun ab hab => ?_⟩
+    obtain ⟨i, hi⟩ := List.mem_iff_getElem?.1 hab
+    have := List.getElem?_zip_eq_some.1 hi
+    exact h i ab.1 ab.2 this.1 this.2
+
+/-- C18 [C] `objective_formula`: the model's `objective` is the documented weighted sum – total
+route length (depot → customers → depot), vehicles used, lateness, overload, synchronisation
+penalty – and, in a state satisfying `Inv`, the unassigned penalty is charged for exactly the
+customers that are on no route (nobody is dropped for free). -/
+theorem objective_formula (W : Weights) (P : Prob) (s : VState) (h : Inv P s) :
+    objective W P s =
+      W.dw * (s.routes.map fun r =>
+          if r = [] then 0 else (((0 :: r).zip (r ++ [0])).map fun ab => P.dist ab.1 ab.2).sum).sum
+      + W.vw * ((s.routes.filter fun r => !r.isEmpty).length : Rat)
+      + W.twp * (s.routes.map fun r => ((r.zip (arrivals P r)).map fun ca => late P ca.1 ca.2).sum).sum
+      + W.capp * capViol P s + W.syncp * syncViol P s
+      + W.unp * (((List.range' 1 P.n).filter fun c => decide (¬ onRoute s c)).length : Rat) := by
+  unfold objective totalDist vehiclesUsed twViol
+  rw [unassigned_count h]
+  have hd : routeDist P = fun r =>
+      if r = [] then 0 else (((0 :: r).zip (r ++ [0])).map fun ab => P.dist ab.1 ab.2).sum :=
+    funext (routeDist_eq P)
+  rw [hd]
+
+example :
+    let P : Prob := ⟨2, fun _ => 1, fun i j => if i = j then 0 else 5, fun _ => 0,
+      fun c => if c = 2 then 20 else 0, fun c => if c = 1 then some 3 else none, fun _ => 2, fun _ => none⟩
+    objective Weights.default P ⟨[[1, 2]], []⟩ = 2015 ∧ chkInv P ⟨[[1, 2]], []⟩ = true := by
+  decide +kernel
+
+/-- T-spec: the objective checker decides "within `tol + rel·|exact|` of the exact weighted sum". -/
+theorem chkObjective_iff (tol rel : Rat) (W : Weights) (P : Prob) (s : VState) (obj : Rat) :
+    chkObjective tol rel W P s obj = true ↔
+      obj - objective W P s ≤ tol + rel * absR (objective W P s) ∧
+      objective W P s - obj ≤ tol + rel * absR (objective W P s) := by
+  simp [chkObjective, closeTo]
+
+/-- T-spec: the distance-matrix checker decides "non-negative, symmetric, and squared entries
+within the relative slack of Δx² + Δy²" for all indices `0..n`. -/
+theorem chkEuclid_iff (rel : Rat) (xy : Nat → Rat × Rat) (P : Prob) :
+    chkEuclid rel xy P = true ↔ ∀ i, i ≤ P.n → ∀ j, j ≤ P.n →
+      let q := ((xy i).1 - (xy j).1) * ((xy i).1 - (xy j).1) + ((xy i).2 - (xy j).2) * ((xy i).2 - (xy j).2)
+      0 ≤ P.dist i j ∧ P.dist i j = P.dist j i ∧
+        P.dist i j * P.dist i j - q ≤ rel * q ∧ q - P.dist i j * P.dist i j ≤ rel * q := by
+  simp only [chkEuclid, closeTo, List.all_eq_true, List.mem_range, Bool.and_eq_true, decide_eq_true_eq,
+    Nat.lt_succ_iff]
+  constructor
+  · intro h i hi j hj; have := h i hi j hj; exact ⟨this.1.1, this.1.2, this.2.1, this.2.2⟩
+  · intro h i hi j hj; have := h i hi j hj; exact ⟨⟨this.1, this.2.1⟩, this.2.2.1, this.2.2.2⟩
+
+example :
+    let P : Prob := ⟨1, fun _ => 1, fun i j => if i = j then 0 else 5, fun _ => 0, fun _ => 0,
+      fun _ => none, fun _ => 0, fun _ => none⟩
+    chkEuclid 0 (fun i => if i = 0 then (0, 0) else (3, 4)) P = true ∧
+    chkEuclid 0 (fun i => if i = 0 then (0, 0) else (3, 5)) P = false := by
+  decide +kernel
 
 end Solvor.Sched
